@@ -60,6 +60,15 @@ func runC16(c *Ctx) {
 		}
 		// source of the warrior: the real assembler, the real loader, or hand-made data
 		source := []string{"assembler", "loader", "direct"}[r.Intn(3)]
+		if source == "direct" && m <= 80 && idx >= 6 && r.Chance(1, 5) {
+			// AddWarrior takes any length: a warrior longer than the core, with its entry point anywhere in it
+			for len(code) <= m+r.Intn(m+2) {
+				more, _ := genWarrior(r, int64(r.Intn(numForms)), d, m, maxLen)
+				code = append(code, more...)
+			}
+			start = r.Intn(len(code))
+			c.Inc("warriors_longer_than_the_core")
+		}
 		var wd g.WarriorData
 		text := strings.Join(asm.PrintLoadFile(code, start, d, m, r.Intn(2), r), "\n") + "\n"
 		var err error
